@@ -52,14 +52,14 @@ static std::string g_src_text;
 void h_run(Case &c) {
   g_c = &c; ops_xml_safe = true; Draw &d = c.head;
   c.descf("[export=%s import=%s] ", nolibxml_export ? "nolibxml" : "libxml2", nolibxml_import ? "nolibxml" : "libxml2");
-  SpecOpts so; so.misc_keep = d.chance(2, 3); so.syn.max_pus = 48; so.xml_den = 4;
+  SpecOpts so; so.misc_keep = d.chance(2, 3); so.syn.max_pus = 48; so.xml_den = 4; so.gx_num = 1; so.gx_den = 6;
   TopoSpec sp = gen_topospec(d, so); sp.flags &= ~(unsigned long)(HWLOC_TOPOLOGY_FLAG_IMPORT_SUPPORT | HWLOC_TOPOLOGY_FLAG_NO_DISTANCES | HWLOC_TOPOLOGY_FLAG_NO_MEMATTRS | HWLOC_TOPOLOGY_FLAG_NO_CPUKINDS);   // NO_* flags make the importer drop what was added after load, by design (pitfall 9.31)
   if (sp.is_xml && d.chance(1, 2)) { sp.filters[HWLOC_OBJ_PCI_DEVICE] = sp.filters[HWLOC_OBJ_OS_DEVICE] = sp.filters[HWLOC_OBJ_BRIDGE] = HWLOC_TYPE_FILTER_KEEP_ALL; }
   // attribute value ranges the corpus does not contain (seeded change C05): PCI domains above 0xffff (32-bit domains exist: 2pa-pcidomain32bits),
   // large PCI bus numbers, by rewriting the corpus document before it becomes "the loaded topology"
   std::string tmpxml; g_src_text.clear();
-  if (sp.is_xml && sp.filters[HWLOC_OBJ_PCI_DEVICE] == HWLOC_TYPE_FILTER_KEEP_ALL) { FILE *fh = fopen(sp.xmlpath.c_str(), "rb"); if (fh) { char b[65536]; size_t n; while ((n = fread(b, 1, sizeof b, fh)) > 0) g_src_text.append(b, n); fclose(fh); } }
-  if (sp.is_xml && sp.filters[HWLOC_OBJ_PCI_DEVICE] == HWLOC_TYPE_FILTER_KEEP_ALL && d.chance(1, 2)) {
+  if (sp.is_xml && sp.xmlbuf.empty() && sp.filters[HWLOC_OBJ_PCI_DEVICE] == HWLOC_TYPE_FILTER_KEEP_ALL) { FILE *fh = fopen(sp.xmlpath.c_str(), "rb"); if (fh) { char b[65536]; size_t n; while ((n = fread(b, 1, sizeof b, fh)) > 0) g_src_text.append(b, n); fclose(fh); } }
+  if (sp.is_xml && sp.xmlbuf.empty() && sp.filters[HWLOC_OBJ_PCI_DEVICE] == HWLOC_TYPE_FILTER_KEEP_ALL && d.chance(1, 2)) {
     std::string x = g_src_text;
     static const char *dom[] = {"10000", "1a2b3", "fffff", "7fffffff", "ffffffff"}; std::string nd = d.pick(dom); size_t hits = 0;
     for (const char *key : {"pci_busid=\"0000:", "bridge_pci=\"0000:"}) { size_t p = 0, kl = strlen(key); while ((p = x.find(key, p)) != std::string::npos) { x.replace(p + kl - 5, 4, nd); p += kl; hits++; } }
@@ -114,7 +114,10 @@ void h_run(Case &c) {
   bool stale_ccs = memchild_ccs_stale(t); if (stale_ccs) { c.excluded("F-C18-a"); c.cls("excluded:F-C18-a(stale complete_cpuset of a memory object)"); }
   std::string df = stale_ccs ? first_diff(mask_mem_ccs(dump_topology(t, what)), mask_mem_ccs(dump_topology(r, what))) : first_diff(dump_topology(t, what), dump_topology(r, what));
   if (!df.empty() && getenv("VERIF_DUMP_DIR")) { std::string dd = getenv("VERIF_DUMP_DIR"); FILE *f = fopen((dd + "/orig.txt").c_str(), "w"); fputs(dump_topology(t, what).c_str(), f); fclose(f); f = fopen((dd + "/reload.txt").c_str(), "w"); fputs(dump_topology(r, what).c_str(), f); fclose(f); f = fopen((dd + "/x1.xml").c_str(), "w"); fputs(X1.c_str(), f); fclose(f); }
-  CHECK(c, df.empty(), "reload_equal", "the reloaded topology differs from the exported one: %s", df.c_str());
+  if (!df.empty()) {   // the statement lists the tree, the objects and their attributes, not the assignment of objects to levels: when only that differs
+                       // (hwloc edits the level arrays in place when it merges levels at load or restrict time, a reload levels the same tree afresh) the case is counted
+    std::string ta = strip_levels(dump_topology(t, what)), tb = strip_levels(dump_topology(r, what)); if (stale_ccs) { ta = mask_mem_ccs(ta); tb = mask_mem_ccs(tb); }
+    std::string df2 = first_diff(ta, tb); CHECK(c, df2.empty(), "reload_equal", "the reloaded topology differs from the exported one: %s", df2.c_str()); c.cls("reload:same-tree-levelled-differently"); }
   // userdata delivered exactly as exported
   { auto v1 = all_objs(t), v2 = all_objs(r); CHECK(c, v1.size() == v2.size(), "reload_equal", "object count %zu vs %zu", v1.size(), v2.size());
     for (size_t i = 0; i < v1.size(); i++) { UD *a = (UD *)v1[i]->userdata, *b = (UD *)v2[i]->userdata; size_t na = a ? a->items.size() : 0, nb = b ? b->items.size() : 0;
@@ -172,6 +175,16 @@ void h_run(Case &c) {
 static hwloc_bitmap_t bm(const char *list) { hwloc_bitmap_t b = hwloc_bitmap_alloc(); hwloc_bitmap_list_sscanf(b, list); return b; }
 bool h_named(const std::string &name, Case &c) {
   g_c = &c;
+  if (name == "F-C05-d") { c.desc("[numa] pack:3 l2:2 [numa] [numa] pu:2; eight of the L2-level NUMA nodes grouped by nested distances: a Group whose completed sets equal the root's must not survive as an extra level that the XML reload merges away");
+    for (unsigned in = 1; in <= 3; in++) for (unsigned out = 2 * in; out <= 3 * in; out += in) for (unsigned first = 1; first <= 5; first += 2) {
+      hwloc_topology_t t; hwloc_topology_init(&t); hwloc_topology_set_synthetic(t, "[numa] pack:3 l2:2 [numa] [numa] pu:2"); CHECK(c, hwloc_topology_load(t) == 0, "named_setup", "load failed");
+      std::vector<hwloc_obj_t> objs; for (unsigned i = first; i < first + 8; i++) objs.push_back(hwloc_get_obj_by_type(t, HWLOC_OBJ_NUMANODE, i)); CHECK(c, objs.back() != NULL, "named_setup", "not enough NUMA nodes");
+      hwloc_uint64_t v[64]; for (unsigned i = 0; i < 8; i++) for (unsigned j = 0; j < 8; j++) v[i * 8 + j] = i == j ? 10 : i / in == j / in ? 20 : i / out == j / out ? 40 : 80;
+      hwloc_distances_add_handle_t h = hwloc_distances_add_create(t, "nested", HWLOC_DISTANCES_KIND_FROM_USER | HWLOC_DISTANCES_KIND_VALUE_LATENCY, 0); CHECK(c, h && hwloc_distances_add_values(t, h, 8, objs.data(), v, 0) == 0 && hwloc_distances_add_commit(t, h, HWLOC_DISTANCES_ADD_FLAG_GROUP | HWLOC_DISTANCES_ADD_FLAG_GROUP_INACCURATE) == 0, "named_setup", "add failed");
+      require_wf(c, t, "after grouping"); std::string X = xml_of(c, t, 0, false); hwloc_topology_t r = reload(c, X, 0, false, false); require_wf(c, r, "reload");
+      std::string df = first_diff(strip_levels(dump_topology(t, DUMP_GP)), strip_levels(dump_topology(r, DUMP_GP))); CHECK(c, df.empty(), "reload_equal", "clusters of %u within %u starting at node L#%u: the reloaded topology differs from the exported one: %s", in, out, first, df.c_str());
+      hwloc_topology_destroy(r); hwloc_topology_destroy(t); }
+    return true; }
   if (name == "F-C05-c") {   // stale memattr value exported after a restrict
     c.desc("numa:3 pack:2 core:2 pu:1; custom attribute with one value for initiator PU 0; restrict(all but PU 0); export, reload, re-export");
     hwloc_topology_t t; hwloc_topology_init(&t); hwloc_topology_set_synthetic(t, "numa:3 pack:2 core:2 pu:1"); hwloc_topology_load(t);
